@@ -10,6 +10,9 @@ R10.3 [AVN] elasticity = (e[geom1] + e[geom2]) / 2; the loader reads elasticity 
 R10.4 [non-interference, random interpretation] a world contact (link -1) never reads or writes the
       last link (Base.take wraps a bare -1): results of the three contact consumers are independent of
       an uninvolved link's state and leave it untouched.
+R10.5 [RI, abstract execution] the geom offsets the loader hands to MuJoCo are the ones the MJCF gives: fusing
+      jointless bodies (mjcf._fuse_bodies / _offset) keeps every geom -- pos/quat or from-to -- at its pose
+      relative to the nearest jointed ancestor (shared with C13 R13.4; unit quaternions).
 """
 import ast
 
@@ -202,3 +205,5 @@ def run(U, rep, tier):
   local_to_global(U, rep)
   get_dataflow(U, rep)
   no_alias(U, rep, tier)
+  from braxlint.props import c13
+  c13.geometry_preserved(U, rep, tier, rule='R10.5', nonunit=False)
